@@ -6,7 +6,8 @@
 (* (o1..o3, all over the same key list of n signers) through random          *)
 (* New / SetBit / SetMask / Merge / Clone calls; each line carries the call, *)
 (* its arguments as given to the real code (indices, raw mask bytes), its    *)
-(* return (ok / error) and the projection of the touched object afterwards:  *)
+(* return (ok / error) and the projection of the touched object afterwards   *)
+(* (AggKey events: the aggregate key reported at that moment as well):       *)
 (* Mask() bytes, CountEnabled(), IndexOfNthEnabled(k) for k = 0..n (bdn).    *)
 (* TLC checks that the sequence is a behaviour of the mask machine of        *)
 (* MultiSig (same transition operator MaskStepN) and that every logged       *)
@@ -80,8 +81,18 @@ TClone ==
     /\ ProjOK(tn, tb[Ev.obj].bits, Ev.state)          \* state = projection of the NEW object
     /\ UNCHANGED <<tn, tkind>>
 
+(* aggregation interleaved with the calls: the key the object reports must be the key of its CURRENT bits *)
+(* (args.canon = key of a fresh canonical-route mask over the same bits), and nothing changes              *)
+TAggKey ==
+    /\ IsEvent("AggKey")
+    /\ tkind = "bdn" /\ tb[Ev.obj].live
+    /\ Ev.ret = "ok"
+    /\ ProjOK(tn, tb[Ev.obj].bits, Ev.state)
+    /\ Ev.state.key = Ev.args.canon
+    /\ UNCHANGED <<tn, tkind, tb>>
+
 TInit == l = 1 /\ tn = 1 /\ tkind = "bdn" /\ tb = [o \in TObjs |-> Dead]
-TNext == (TReset \/ TNew \/ TApply("SetBit") \/ TApply("SetMask") \/ TApply("Merge") \/ TClone)
+TNext == (TReset \/ TNew \/ TApply("SetBit") \/ TApply("SetMask") \/ TApply("Merge") \/ TClone \/ TAggKey)
          /\ UNCHANGED vars
 TraceSpec == TInit /\ Init /\ [][TNext]_<<tvars, vars>>
 
